@@ -344,7 +344,18 @@ def check_tiebreak(ctx, case, max_runs):
                 ctx.fail(f"{cfg['rule']}: tiebreak draw is not a full permutation of a set", c2, {"k": ev["k"], "pop": list(map(str, pop))})
                 break
             match = [R for K, R in recs if set(K) == set(pop)]
-            if cfg.get("tiebreak") != "random" or cfg["rule"] in rules.UNTIED_ONLY:
+            simple = cfg["rule"] in ("Plurality", "SNTV", "Borda") or cfg["rule"] in rules.SCORE_RULES
+            if cfg["rule"] in ("TopTwo", "Alaska", "CondoBorda"):
+                # composite rules draw more often than they record (TopTwo draws the runoff order twice and uses one draw, Alaska
+                # replays its STV stage): a draw whose result is thrown away does not touch the law of the one that decides.  So
+                # here every draw must permute candidates inside a recorded tied set, and every recorded resolution that had draws
+                # inside its set must list some draw's candidates in the drawn order (judged per record, below).
+                ctx.count("composite_rule_permutations")
+                if not any(set(pop) <= set(K) for K, _ in recs):
+                    ctx.fail(f"{cfg['rule']}: permutation drawn over candidates that are not inside a recorded tied set", c2,
+                             {"pop": sorted(map(str, pop)), "recorded": [sorted(K) for K, _ in recs]})
+                    break
+            elif cfg.get("tiebreak") != "random" or not simple:
                 # scored tiebreak (or the STV family's elimination tiebreak by initial first-place votes) that left a sub-tie:
                 # the permuted set lies inside a recorded tied set and the record lists it in the drawn order
                 ctx.count("fallback_permutations")
@@ -357,7 +368,7 @@ def check_tiebreak(ctx, case, max_runs):
                     ctx.fail(f"{cfg['rule']}: recorded resolution does not list the sub-tie in the drawn order", c2,
                              {"pop": sorted(map(str, pop)), "drawn": list(map(str, ev["result"]))})
                     break
-            elif cfg["rule"] in ("Plurality", "SNTV", "Borda") or cfg["rule"] in rules.SCORE_RULES:
+            else:
                 # the permuted set is exactly the recorded tied set and the record is the drawn order
                 if not match:
                     ctx.fail(f"{cfg['rule']}: permutation drawn over a set that is not a recorded tied set", c2,
@@ -366,6 +377,17 @@ def check_tiebreak(ctx, case, max_runs):
                 if [next(iter(g)) for g in match[0]] != list(ev["result"]):
                     ctx.fail(f"{cfg['rule']}: recorded resolution differs from the drawn permutation", c2, {})
                     break
+        if cfg["rule"] in ("TopTwo", "Alaska", "CondoBorda"):
+            for K, R in recs:
+                inside = [ev for ev in samples if set(ev["population"]) <= set(K) and len(ev["population"]) >= 2]
+                if inside:
+                    ctx.count("composite_rule_records_explained")
+                    flat = [c for g in R for c in g]
+                    if not any([c for c in flat if c in set(ev["population"])] == list(ev["result"]) for ev in inside):
+                        ctx.fail(f"{cfg['rule']}: a recorded resolution follows none of the permutations drawn inside its tied set", c2,
+                                 {"tied": sorted(map(str, K)), "recorded": list(map(str, flat)),
+                                  "drawn": [list(map(str, ev["result"])) for ev in inside]})
+                        break
 
 
 def check_freq(ctx, case):
@@ -467,11 +489,20 @@ def run(ctx):
         m = rnd.randint(1, min(3, n))
         ctx.guard("law", check_law, ctx, {"kind": "law", "cfg": {"rule": rule, "m": m}, "profile": spec}, max_runs)
         if i % 2 == 0:
-            r2 = rnd.choice(["Plurality", "Borda", "SNTV", "Approval"])
-            if r2 == "Approval":
+            r2 = rnd.choice(["Plurality", "Borda", "SNTV", "Approval", "TopTwo", "Alaska", "CondoBorda", "Limited", "Cumulative",
+                             "Rating", "BlocPlurality"])
+            if r2 in rules.SCORE_RULES:
                 from .. import cases as _cases
 
                 c = _cases.score_case(rnd, r2)
+            elif r2 in ("TopTwo", "Alaska", "CondoBorda"):
+                # every rule breaks its ties through the same law: composite and pairwise rules too
+                from .. import cases as _cases
+
+                c = _cases.ranking_case(rnd, r2, maxn=5)
+                if c["cfg"].get("transfer") == "random":
+                    c["cfg"]["transfer"] = "fractional"
+                ctx.count("tiebreak_cases_composite_rules")
             else:
                 tag = rnd.choice(["tie_top", "tie_boundary", "overquota"])
                 sp, mm = gen.hostile(rnd, tag, n=rnd.randint(2, 5))
@@ -479,7 +510,7 @@ def run(ctx):
             c["cfg"]["tiebreak"] = "random"
             c["kind"] = "tiebreak"
             ctx.guard("tiebreak", check_tiebreak, ctx, c, max_runs)
-            if r2 != "Approval" and i % 4 == 0:
+            if r2 in ("Plurality", "Borda", "SNTV") and i % 4 == 0:
                 # scored tiebreaks that cannot separate the tied candidates fall back to a random permutation of the sub-tie
                 c3 = {"cfg": dict(c["cfg"], tiebreak=rnd.choice(["borda", "first_place"])), "profile": c["profile"], "kind": "tiebreak"}
                 ctx.guard("tiebreak", check_tiebreak, ctx, c3, max_runs)
